@@ -30,15 +30,39 @@ THEOREMS = {
     'C06_frame_run_reports_nonvacuous': 'non-vacuity: the example readers satisfy the hypotheses of the reports variants (good READ state, agreeing databases)',
     'C06_frame_uncited_alt_nonvacuous': 'non-vacuity: an uncited entry standing between two cited ones satisfies the side condition',
     'C06_one_item_per_citation_nonvacuous': 'non-vacuity: f = {cite$ write$ newline$} satisfies the hypotheses for every state and key; the three tiny styles give citation, reverse and sort-key order; a concrete stable sort',
+    'C06_bib_format_selects': 'bib_format selects the suffix of the data file names AND the reader READ uses, together (one plug-in object): make_bibliography with a reader is the explicit call on the \\bibdata names with that reader\'s suffix and that reader\'s database; without bib_format it is the BibTeX reader with suffix .bib',
+    'C06_bib_format_selects_nonvacuous': 'non-vacuity: a reader delivering only entry b is used although refs.bib holds both entries; the same suffix without a reader database finds no file',
+    'C06_entry_points': 'the entry points named in the quantifier are one function: format_from_files on files holding the texts = format_from_strings(texts); format_from_string(t) = format_from_strings([t]); format_from_file(n) = format_from_string(text of n) - same .bbl, reports, printed output or error',
+    'C06_entry_points_nonvacuous': 'non-vacuity: the example .bib text through format_from_string, format_from_file and split into two strings',
+    'C06_files_opened_by_read': 'the model follows the order in which the code touches the outside world: nothing is opened before READ (a READ-free prefix of the script runs whatever the data files are: a style without READ never needs them, an error before READ is the error of the run), READ opens the sources (a missing file is the error of the run), a command without a command_ method is printed as Unknown command and skipped',
+    'C06_files_opened_by_read_nonvacuous': 'non-vacuity: four miniature styles on a MISSING data file (no READ: output; raises before READ: that error; syntax error behind executed commands: surfaces after they ran, unless they raised first; with READ: cannot open) and an unknown command that is printed and skipped',
+    'C06_frame_files': 'the frame theorem at the entry point: two format_from_files calls with the same style (pre; READ; post), citations and min_crossrefs on two file systems / source lists whose READ steps leave states differing in the database only, with databases agreeing on the resolved citations, return the same .bbl, reports, printed output or error',
+    'C06_frame_files_nonvacuous': 'non-vacuity: the example style parses to ENTRY FUNCTION READ ITERATE, both example .bib files are read, the two calls give the same .bbl',
+    'C06_order_general': 'the order clauses for the command skeleton of the shipped styles: every command other than READ and SORT (also ITERATE / REVERSE over any function) leaves the citation list and the database alone; mid; ITERATE {f} emits the items in citation order behind the output of mid; SORT; mid; ITERATE {f} emits them in sortByKey order of the citations paired with their sort.key$ at the time of the SORT (permutation, ascending, ties in the order before the SORT = citation order for the first SORT)',
+    'C06_order_general_nonvacuous': 'non-vacuity: READ ITERATE {k} SORT STRINGS {x} ITERATE {k} REVERSE {k} ITERATE {f} has a mid without READ / SORT and gives the keys in sort-key order',
+    'C06_item_starts_with_bibitem': 'instantiation of one-item-per-citation for the output.bibitem ... fin.entry skeleton of unsrt.bst / plain.bst: an entry function beginning with output.bibitem (whose body begins newline$ "\\bibitem{" write$ cite$ write$ "}" write$ newline$) appends lines that start with the pending line and \\bibitem{k}, whatever the rest of the function does (the output only grows); ITERATE over it gives exactly one \\bibitem{k} block per resolved citation, in citation order',
+    'C06_item_starts_with_bibitem_nonvacuous': 'non-vacuity: a style with the standard output.bibitem and ITERATE {call.type$} produces \\bibitem{a} ... \\bibitem{b} ...',
+    'C06_frame_reordered': "the database file is reordered: two readings that deliver the same entry under every key (in any order), with equal preamble and reader reports and no '*' cited, make READ resolve the same citations with the same reports and leave states differing in the database only, with agreeing databases - the READ hypothesis of C06_frame_run / C06_frame_files, hence equal runs",
+    'C06_frame_reordered_nonvacuous': 'non-vacuity: the two example readers deliver the same entry under every key in different orders',
+    'C06_frame_swap_alt': "reordering the entry list a bib_format reader delivers: two neighbours change places - if their keys differ up to case, neither is the crossref target of the other (parent-after-child proviso) nor refers to '*', at most one repeats an earlier key and no '*' is cited, the whole run (.bbl, reports, printed output, or the error) is the same for both orders",
+    'C06_frame_swap_alt_nonvacuous': 'non-vacuity: the example list noise a b / noise b a satisfies the conditions; the run gives a, b',
+    'C06_item_starts_with_bibitem_alpha': "the same for alpha.bst's output.bibitem (newline$ \"\\bibitem[\" write$ label write$ \"]{\" write$ cite$ write$ \"}\" write$ newline$): the lines appended for entry k start with the pending line and \\bibitem[L]{k}, L the text of k's label variable",
+    'C06_item_starts_with_bibitem_alpha_nonvacuous': 'non-vacuity: a style with that output.bibitem and labels computed in an earlier ITERATE pass produces \\bibitem[Z]{a} \\bibitem[Y]{b}',
 }
-RULE = ('databases drawn from a pool of 14 realistic entries (all standard types, cross-references, braces, special characters) with '
-        'random subsets / permutations (parents after their children), noise entries inserted anywhere, citation lists with and without '
-        "'*', unknown keys and case variants, each standard style of tests/data (unsrt, plain, alpha; thorough: abbrv too), both entry "
-        'points (make_bibliography through a generated .aux, format_from_files), every combination of style= / bib_format= override (YAML copy); '
-        'non-trivial = at least two cited entries; distinct by case JSON')
+RULE = ('databases drawn from a pool of realistic entries (all standard types, cross-references, braces, special characters, a group of entries '
+        'identical up to the key = sort-key ties, a group with one alpha label = label collisions, non-ASCII text) with random subsets / '
+        'permutations (parents after their children), noise entries inserted anywhere, one file or the same text split into two files, '
+        "citation lists with and without '*', unknown keys, case variants and repeated keys, each standard style of tests/data (unsrt, plain, "
+        'alpha; thorough: unsrt_mixed, IEEEtran, jurabib, apacite too) plus six generated miniature styles (REVERSE-computed sort keys, no READ, an '
+        'error before READ, a syntax error behind executed commands), every entry point (make_bibliography through a generated .aux, the '
+        'command line, format_from_files / _file / _string / _strings, the default citations argument, Interpreter.run with an unknown '
+        'command), every combination of style= / bib_format= override (YAML copy beside a decoy or absent .bib file), output_encoding / '
+        'bib_encoding; non-trivial = at least two cited entries; distinct by case JSON')
 TRUSTED = ['the standard .bst files are inputs (not modelled); the YAML reader is used as is for the bib_format override',
            'real temp files under a private directory outside /repo and /verif']
-ASSUMPTIONS = ['ASCII field values; parents occur after the children that reference them (C05 ordering proviso)']
+ASSUMPTIONS = ['ASCII field values except in the note field (lower-case Latin-1 letters); parents occur after the children that reference '
+               "them (C05 ordering proviso); 'the file is reordered' is checked for citation lists without '*' (with '*' the file order IS "
+               'the citation order)']
 
 POOL = {
     'knuth84': '@book{knuth84, author = {Donald E. Knuth}, title = {The {\\TeX}book}, publisher = {Addison-Wesley}, year = 1984}',
@@ -56,16 +80,52 @@ POOL = {
     'incoll1': '@incollection{incoll1, author = {X. Y. Zed}, title = {A chapter}, booktitle = {The Collection}, publisher = {Pub}, year = 1995, chapter = 3, pages = {100--120}}',
     'manual1': '@manual{manual1, title = {The Manual}, organization = {Org}, year = 2020}',
 }
+# entries identical up to the key: equal sort keys in every sorting style (ties must keep citation order)
+TIES = ['tieq', 'tiem', 'tiea', 'tiez']
+for _k in TIES:
+    POOL[_k] = '@article{%s, author = {Tom Tie}, title = {Tied title}, journal = {J. of Ties}, year = 2003}' % _k
+# entries with one alpha label (Col07) and different titles: alpha.bst tells them apart by a letter handed out in REVERSE {reverse.pass}
+COLLIDE = ['colg', 'cola', 'colb']
+for _k, _t in zip(COLLIDE, ('Gamma rays', 'Alpha rays', 'Beta rays')):
+    POOL[_k] = '@article{%s, author = {Carl Collide}, title = {%s}, journal = {J. of Rays}, year = 2007}' % (_k, _t)
+# non-ASCII text (Latin-1, lower case) in a field no style inspects letter by letter
+POOL['uni1'] = '@misc{uni1, author = {Uni Code}, title = {Encoded note}, note = {caf\u00e9 na\u00efve \u00fcber stra\u00dfe \u00e0 \u00f1}, year = 2011}'
 ORDER = list(POOL)
 NOISE = ['@misc{noise1, title = {Noise one}, year = 1900}', '@article{noise2, author = {N. Oise}, title = {Noise two}, journal = {Nowhere}, year = 1901}',
          '@string{unusedmacro = "zzz"}', '@comment{ignored}']
 STYLES_QUICK = ['unsrt', 'plain', 'alpha']
 STYLES_ALL = ['unsrt', 'plain', 'alpha', 'unsrt_mixed']
+# the large styles of tests/data: used in the thorough tier on the entries the model was found to agree on byte for byte
+STYLES_LARGE = ['IEEEtran', 'jurabib', 'apacite']
+
+_ITEM = 'FUNCTION {out} {"\\bibitem{" cite$ * "}" * write$ newline$}\n'
+# generated miniature styles ("any .bst style"): what the standard styles never do
+MINI = {
+    # keys only, citation order
+    'mini_keys': 'ENTRY {title}{}{}\n' + _ITEM + 'READ\nITERATE {out}\n',
+    # sorted on the title (missing titles sort first)
+    'mini_sorted': 'ENTRY {title}{}{}\nFUNCTION {pre} {title \'sort.key$ :=}\n' + _ITEM + 'READ\nITERATE {pre}\nSORT\nITERATE {out}\n',
+    # the sort keys are numbered in a REVERSE pass: the last citation gets the smallest key
+    'mini_revkey': ('ENTRY {title}{}{}\nINTEGERS {n}\nFUNCTION {num} {n #1 + \'n := "k" n int.to.str$ * \'sort.key$ :=}\n' + _ITEM +
+                    'READ\nREVERSE {num}\nSORT\nITERATE {out}\n'),
+    # two sorts: on the title, then on the year (entries with equal years stay in title order)
+    'mini_twosorts': ('ENTRY {title year}{}{}\nFUNCTION {pre} {title \'sort.key$ :=}\nFUNCTION {pre2} {year \'sort.key$ :=}\n' + _ITEM +
+                      'READ\nITERATE {pre}\nSORT\nITERATE {pre2}\nSORT\nITERATE {out}\n'),
+    # no READ at all: the database files are never opened
+    'mini_noread': 'ENTRY {}{}{}\nFUNCTION {out} {"no database needed" write$ newline$}\nEXECUTE {out}\n',
+    # raises before READ: the error of the run is this one, whatever the database files are
+    'mini_raise': 'ENTRY {}{}{}\nFUNCTION {bad} {pop$}\nEXECUTE {bad}\nREAD\n',
+    # a syntax error behind executed commands: the script is parsed command by command while it runs
+    'mini_syntax': 'ENTRY {title}{}{}\n' + _ITEM + 'READ\nITERATE {out}\nBOGUS {x}\n',
+    'mini_raise_syntax': 'ENTRY {}{}{}\nFUNCTION {bad} {pop$}\nEXECUTE {bad}\nBOGUS {x}\n',
+}
 
 _STYLE_TEXT = {}
 
 
 def style_text(name):
+    if name in MINI:
+        return MINI[name]
     if name not in _STYLE_TEXT:
         with open(os.path.join(compat.REPO, 'tests', 'data', name + '.bst'), encoding='utf-8') as f:
             _STYLE_TEXT[name] = f.read()
@@ -73,45 +133,87 @@ def style_text(name):
 
 
 _TMP = {}
+_ROOT = []
+
+
+def _root():
+    """one private directory per check run, created (and removed at exit) by the process that generates the cases; worker
+    processes forked later use sub-directories of it"""
+    if not _ROOT:
+        base = '/dev/shm' if os.access('/dev/shm', os.W_OK) else None
+        _ROOT.append((os.getpid(), tempfile.mkdtemp(prefix='verif-c06-', dir=base)))
+        import atexit
+        atexit.register(_cleanup, os.getpid(), _ROOT[0][1])
+    return _ROOT[0][1]
+
+
+def _cleanup(pid, d):
+    if os.getpid() == pid:
+        shutil.rmtree(d, True)
 
 
 def _tmpdir():
     d = _TMP.get(os.getpid())
     if d is None:
-        base = '/dev/shm' if os.access('/dev/shm', os.W_OK) else None
-        d = tempfile.mkdtemp(prefix='verif-c06-', dir=base)
+        d = os.path.join(_root(), str(os.getpid()))
+        os.makedirs(d, exist_ok=True)
         _TMP[os.getpid()] = d
-        import atexit
-        atexit.register(shutil.rmtree, d, True)
     return d
 
 
-def bib_text(case, keys=None, noise=None):
+def bib_parts(case, keys=None, noise=None):
     keys = case['keys'] if keys is None else keys
     parts = [POOL[k] for k in keys]
     for pos, n in (case.get('noise', []) if noise is None else noise):
         parts.insert(min(pos, len(parts)), NOISE[n])
-    return '\n\n'.join(parts) + '\n'
+    return parts
 
 
-def _write(path, text):
-    with open(path, 'w', encoding='utf-8', newline='') as f:
+def bib_text(case, keys=None, noise=None):
+    return '\n\n'.join(bib_parts(case, keys, noise)) + '\n'
+
+
+def bib_texts(case):
+    """the database file(s) of the case: one file, or the same commands split into two files at case['split']"""
+    parts = bib_parts(case)
+    sp = case.get('split')
+    if sp is None:
+        return ['\n\n'.join(parts) + '\n']
+    sp = max(0, min(sp, len(parts)))
+    return ['\n\n'.join(parts[:sp]) + '\n', '\n\n'.join(parts[sp:]) + '\n']
+
+
+BIB_NAMES = ['refs', 'refs2']
+
+
+def decoy_text(text):
+    """the same entries with other titles: what a run that ignores bib_format would read"""
+    return text.replace('title = {', 'title = {Decoy ').replace('title = "', 'title = "Decoy ')
+
+
+def _write(path, text, encoding='utf-8'):
+    with open(path, 'w', encoding=encoding, newline='') as f:
         f.write(text)
 
 
 def _run(fn):
+    import contextlib
     import pybtex.io
     import io as _io
     from pybtex import errors
     from pybtex.exceptions import PybtexError
     old_out = pybtex.io.stdout
     pybtex.io.stdout = _io.StringIO()
+    sysout = _io.StringIO()
     try:
-        with errors.capture() as captured:
-            r = fn()
+        with contextlib.redirect_stdout(sysout):
+            with errors.capture() as captured:
+                r = fn()
         return {'bbl': r, 'reports': [c03.canon_report(e) for e in captured if type(e).__name__ != 'AuxDataError'],
-                'aux_errors': sum(1 for e in captured if type(e).__name__ == 'AuxDataError')}
+                'aux_errors': sum(1 for e in captured if type(e).__name__ == 'AuxDataError'), 'stdout': sysout.getvalue()}
     except PybtexError as e:
+        if type(getattr(e, 'parser', None)).__name__ == 'BstParser':
+            return {'error': ['BST-SYNTAX']}
         return {'error': [type(e).__name__]}
     except Exception as e:  # noqa
         return {'error': ['INTERNAL'], 'detail': '%s: %s' % (type(e).__name__, e)}
@@ -119,21 +221,45 @@ def _run(fn):
         pybtex.io.stdout = old_out
 
 
+def eff_style(case):
+    return case.get('style_override') or case['style']
+
+
+def aux_lines(case, d):
+    aux = ['\\relax '] + _citation_lines(case)
+    aux.append('\\bibstyle{%s}' % (d + '/' + case['style']))
+    aux.append('\\bibdata{%s}' % ','.join(d + '/' + n for n in BIB_NAMES[:len(bib_texts(case))]))
+    return aux
+
+
+def yaml_text(case):
+    from pybtex import errors
+    from pybtex.database import parse_string
+    with errors.capture():
+        return parse_string(bib_text(case), 'bibtex').to_string('yaml')
+
+
 def setup_files(case, d):
-    """Write style, bib (and yaml copy) and aux files; return their paths (without suffix where the API wants that)."""
+    """Write style, bib (or yaml copy + decoy bib) and aux files."""
+    enc = case.get('enc') or 'utf-8'
     for st in set([case['style']] + ([case['style_override']] if case.get('style_override') else [])):
         _write(os.path.join(d, st + '.bst'), style_text(st))
-    text = bib_text(case)
-    _write(os.path.join(d, 'refs.bib'), text)
+    texts = bib_texts(case)
     if case.get('yaml'):
-        from pybtex.database import parse_string
-        db = parse_string(text, 'bibtex')
-        _write(os.path.join(d, 'refs.yaml'), db.to_string('yaml'))
-    aux = ['\\relax '] + _citation_lines(case)
-    aux.append('\\bibstyle{%s}' % os.path.join(d, case['style']))
-    aux.append('\\bibdata{%s}' % os.path.join(d, 'refs'))
-    _write(os.path.join(d, 'doc.aux'), '\n'.join(aux) + '\n')
-    return aux
+        # the bib_format override must be observable: beside refs.yaml there is either no refs.bib at all or one with other titles
+        _write(os.path.join(d, 'refs.yaml'), yaml_text(case), enc)
+        if case.get('decoy', True):
+            _write(os.path.join(d, 'refs.bib'), decoy_text(texts[0]), enc)
+        _write(os.path.join(d, 'plain_copy.bib'), texts[0], enc)
+    elif not case.get('missing_bib'):
+        for n, t in zip(BIB_NAMES, texts):
+            _write(os.path.join(d, n + '.bib'), t, enc)
+    _write(os.path.join(d, 'doc.aux'), '\n'.join(aux_lines(case, d)) + '\n', enc)
+
+
+def _yaml_parser():
+    from pybtex.database.input.bibyaml import Parser as YamlParser
+    return YamlParser
 
 
 def run_aux(case, d):
@@ -142,17 +268,25 @@ def run_aux(case, d):
     if case.get('style_override'):
         kw['style'] = os.path.join(d, case['style_override'])
     if case.get('yaml'):
-        from pybtex.database.input.bibyaml import Parser as YamlParser
-        kw['bib_format'] = YamlParser
+        kw['bib_format'] = _yaml_parser()
+    enc = case.get('enc')
+    if enc:
+        kw['output_encoding'] = enc
+        kw['bib_encoding'] = enc
+    raw = {}
 
     def go():
         bbl = os.path.join(d, 'doc.bbl')
         if os.path.exists(bbl):
             os.unlink(bbl)
         make_bibliography(os.path.join(d, 'doc.aux'), **kw)
-        with open(bbl, encoding='utf-8', newline='') as f:
-            return f.read()
-    return _run(go)
+        with open(bbl, 'rb') as f:
+            raw['bytes'] = f.read()
+        return raw['bytes'].decode(enc or 'utf-8')
+    r = _run(go)
+    if 'bytes' in raw and 'error' not in r:
+        r['hex'] = raw['bytes'].hex()
+    return r
 
 
 def run_cli(case, d):
@@ -190,32 +324,139 @@ def run_cli(case, d):
         sys.argv, errors.strict, errors.error_code, pybtex.io.stderr, pybtex.io.stdout, sys.stderr = old
 
 
-def run_files(case, d, keys=None, noise=None, style=None, yaml=None, name='refs'):
-    from pybtex.bibtex import format_from_files
-    yaml = case.get('yaml') if yaml is None else yaml
-    if keys is not None or noise is not None:
-        name = 'variant'
-        _write(os.path.join(d, name + '.bib'), bib_text(case, keys, noise))
+def _files_kw(case, yaml):
     kw = {'min_crossrefs': case['min_crossrefs'], 'citations': list(case['citations'])}
     if yaml:
-        from pybtex.database.input.bibyaml import Parser as YamlParser
-        kw['bib_format'] = YamlParser
-    path = os.path.join(d, name + ('.yaml' if yaml else '.bib'))
-    return _run(lambda: format_from_files([path], style=os.path.join(d, style or case.get('style_override') or case['style']), **kw))
+        kw['bib_format'] = _yaml_parser()
+    if case.get('enc'):
+        kw['bib_encoding'] = case['enc']
+    return kw
+
+
+def run_files(case, d, keys=None, noise=None, yaml=None, single=False, how='files'):
+    """the explicit call.  how = files | file | string | default (no citations argument) | bytes (written to a file as make_bibliography does)"""
+    from pybtex.bibtex import BibTeXEngine
+    eng = BibTeXEngine()
+    yaml = bool(case.get('yaml')) if yaml is None else yaml
+    enc = case.get('enc') or 'utf-8'
+    style = os.path.join(d, eff_style(case))
+    kw = _files_kw(case, yaml)
+    if keys is not None or noise is not None or single:
+        _write(os.path.join(d, 'variant.bib'), bib_text(case, keys, noise), enc)
+        paths = [os.path.join(d, 'variant.bib')]
+    elif yaml:
+        paths = [os.path.join(d, 'refs.yaml')]
+    elif case.get('yaml'):
+        paths = [os.path.join(d, 'plain_copy.bib')]
+    else:
+        paths = [os.path.join(d, n + '.bib') for n in BIB_NAMES[:len(bib_texts(case))]]
+    if how == 'file':
+        return _run(lambda: eng.format_from_file(paths[0], style=style, **kw))
+    if how == 'string':
+        texts = [yaml_text(case)] if yaml else bib_texts(case)
+        kw.pop('bib_encoding', None)
+        if len(texts) == 1:
+            return _run(lambda: eng.format_from_string(texts[0], style=style, **kw))
+        return _run(lambda: eng.format_from_strings(texts, style=style, **kw))
+    if how == 'default':
+        del kw['citations']
+        return _run(lambda: eng.format_from_files(paths, style=style, **kw))
+    if how == 'bytes':
+        raw = {}
+
+        def go():
+            out = os.path.join(d, 'explicit')
+            eng.format_from_files(paths, style=style, output_encoding=enc, output_filename=out, add_output_suffix=True, **kw)
+            with open(out + '.bbl', 'rb') as f:
+                raw['bytes'] = f.read()
+            return raw['bytes'].decode(enc)
+        r = _run(go)
+        if 'bytes' in raw and 'error' not in r:
+            r['hex'] = raw['bytes'].hex()
+        return r
+    return _run(lambda: eng.format_from_files(paths, style=style, **kw))
+
+
+def run_inject(case, d):
+    """Interpreter.run on the parsed script of the style with an unknown command put in at a position"""
+    from pybtex.bibtex import bst
+    from pybtex.bibtex.interpreter import Interpreter
+    from pybtex.database.input.bibtex import Parser
+    pos, name = case['inject']
+    paths = [os.path.join(d, n + '.bib') for n in BIB_NAMES[:len(bib_texts(case))]]
+
+    def go():
+        script = list(bst.parse_file(os.path.join(d, eff_style(case)) + '.bst'))
+        script.insert(pos, [name])
+        return Interpreter(Parser, None).run(script, list(case['citations']), paths, min_crossrefs=case['min_crossrefs'])
+    return _run(go)
+
+
+# The quick tier has fewer cases than check.py's threshold for its process pool; every case costs four to six runs of the real
+# engine (~0.1 s).  gen_cases therefore computes impl() for its cases in a fork pool (the same function, the same working tree)
+# and impl() hands each precomputed result out ONCE; replays, shrinks and anything not precomputed run in-process as usual.
+_PRE = {}
+
+
+def _key(case):
+    import json
+    return json.dumps(case, sort_keys=True, ensure_ascii=False)
+
+
+def _impl_worker(case):
+    import signal
+
+    def _alarm(*_a):
+        raise TimeoutError()
+    old = signal.signal(signal.SIGALRM, _alarm)
+    signal.setitimer(signal.ITIMER_REAL, 60)
+    try:
+        return _impl(case)
+    except BaseException:  # noqa: left to the in-process call, which reports it through check.py
+        return None
+    finally:
+        signal.setitimer(signal.ITIMER_REAL, 0)
+        signal.signal(signal.SIGALRM, old)
+
+
+def _prefetch(cases):
+    import multiprocessing
+    n = int(os.environ.get('VERIF_C06_PREFETCH', min(16, os.cpu_count() or 1)))
+    if n <= 1 or len(cases) >= 3000 or multiprocessing.current_process().name != 'MainProcess':
+        return
+    try:
+        with multiprocessing.get_context('fork').Pool(n) as pool:
+            for c, o in zip(cases, pool.map(_impl_worker, cases, chunksize=4)):
+                if o is not None:
+                    _PRE[_key(c)] = o
+    except Exception:  # noqa
+        _PRE.clear()
 
 
 def impl(case):
+    o = _PRE.pop(_key(case), None) if _PRE else None
+    return o if o is not None else _impl(case)
+
+
+def _impl(case):
     d = os.path.join(_tmpdir(), 'w')
     shutil.rmtree(d, True)
     os.makedirs(d)
     try:
         setup_files(case, d)
-        out = {'aux': run_aux(case, d), 'files': run_files(case, d)}
+        out = {'aux': run_aux(case, d), 'files': run_files(case, d, how='bytes' if case.get('enc') else 'files')}
         if case.get('cli'):
             out['cli'] = run_cli(case, d)
+        # the other entry points named in the quantifier
+        if case.get('entry') in ('file', 'string', 'default'):
+            out[case['entry']] = run_files(case, d, how=case['entry'])
+        if case.get('inject'):
+            out['inject'] = run_inject(case, d)
         # metamorphic variants (implementation only)
         if case.get('variant_keys') is not None or case.get('variant_noise') is not None:
             out['variant'] = run_files(case, d, keys=case.get('variant_keys'), noise=case.get('variant_noise'))
+        if case.get('split') is not None and not case.get('missing_bib'):
+            out['single'] = run_files(case, d, single=True)
         if case.get('yaml'):
             out['bibtex_db'] = run_files(case, d, yaml=False)
         # resolved citations as the property defines them (unfiltered database, then selection)
@@ -226,6 +467,7 @@ def impl(case):
             res = db.add_extra_citations(list(case['citations']), case['min_crossrefs'])
         out['resolved'] = [k for k in res if k in db.entries]
         out['dir'] = d
+        out['view'] = case.get('view') or 'aux'
         return out
     finally:
         shutil.rmtree(d, True)
@@ -233,23 +475,39 @@ def impl(case):
 
 def to_request(case):
     d = '/D'
-    texts = [[d + '/' + case['style'] + '.bst', style_text(case['style'])], [d + '/refs.bib', bib_text(case)]]
+    texts = [[d + '/' + case['style'] + '.bst', style_text(case['style'])]]
     if case.get('style_override'):
         texts.append([d + '/' + case['style_override'] + '.bst', style_text(case['style_override'])])
-    aux = ['\\relax '] + _citation_lines(case)
-    aux.append('\\bibstyle{%s}' % (d + '/' + case['style']))
-    aux.append('\\bibdata{%s}' % (d + '/refs'))
-    req = {'op': 'makebib', 'mode': 'aux', 'aux_files': [[d + '/doc.aux', aux]], 'top': d + '/doc.aux', 'texts': texts,
-           'style_override': (d + '/' + case['style_override']) if case.get('style_override') else None,
-           'suffix': '.yaml' if case.get('yaml') else '.bib', 'min_crossrefs': case['min_crossrefs'], 'alt': None}
+    bt = bib_texts(case)
+    if case.get('yaml'):
+        if case.get('decoy', True):
+            texts.append([d + '/refs.bib', decoy_text(bt[0])])
+    elif not case.get('missing_bib'):
+        for n, t in zip(BIB_NAMES, bt):
+            texts.append([d + '/' + n + '.bib', t])
+    req = {'op': 'makebib', 'aux_files': [[d + '/doc.aux', aux_lines(case, d)]], 'texts': texts,
+           'min_crossrefs': case['min_crossrefs'], 'alt': None}
     if case.get('yaml'):
         from pybtex import errors
         from pybtex.database import parse_string
         with errors.capture():
-            db = parse_string(bib_text(case), 'bibtex')
-            ydb = parse_string(db.to_string('yaml'), 'yaml')
+            ydb = parse_string(yaml_text(case), 'yaml')
         entries, preamble = c01.canon_db(ydb)
         req['alt'] = {'entries': entries, 'preamble': preamble}
+    view = case.get('view') or 'aux'
+    if view == 'aux':
+        req.update({'mode': 'aux', 'top': d + '/doc.aux',
+                    'style_override': (d + '/' + case['style_override']) if case.get('style_override') else None,
+                    'bib_format': {'suffix': '.yaml'} if case.get('yaml') else None})
+    else:
+        if view == 'string':
+            srcs = [['text', yaml_text(case)]] if case.get('yaml') else [['text', t] for t in bt]
+        else:
+            srcs = [['file', d + '/refs.yaml']] if case.get('yaml') else [['file', d + '/' + n + '.bib'] for n in BIB_NAMES[:len(bt)]]
+        req.update({'mode': 'inject' if view == 'inject' else 'files', 'srcs': srcs, 'style': d + '/' + eff_style(case),
+                    'citations': list(case['citations'])})
+        if view == 'inject':
+            req['inject_pos'], req['inject_name'] = case['inject']
     return req
 
 
@@ -258,7 +516,9 @@ def _norm_paths(s, d):
 
 
 def compare_view(io):
-    a = io['aux']
+    """the run the model is compared with: the .aux entry point, or (case['view']) the explicit call / format_from_string(s) /
+    Interpreter.run with an injected unknown command"""
+    a = io[{'aux': 'aux', 'files': 'files', 'string': 'string', 'inject': 'inject'}[io.get('view', 'aux')]]
     if 'error' in a:
         return {'error': a['error']}
     return {'bbl': a['bbl'], 'reports': [[c, _norm_paths(m, io['dir'])] for c, m in a['reports']], 'aux_errors': a['aux_errors']}
@@ -277,25 +537,69 @@ def model_out(case, reply):
 
 
 def bibitem_keys(bbl):
-    import re
-    return re.findall(r'\\bibitem(?:\[[^\]]*\])?\{([^}]*)\}', bbl)
+    """the keys of the \\bibitem commands, in order: \\bibitem{key} / \\bibitem[label]{key}; the label may contain braces and (inside
+    braces) brackets, apacite breaks the line with %<newline> in front of the key"""
+    keys, i, n = [], 0, len(bbl)
+    while True:
+        i = bbl.find('\\bibitem', i)
+        if i < 0:
+            return keys
+        i += len('\\bibitem')
+        if i < n and bbl[i] == '[':
+            depth = 0
+            while i < n:
+                ch = bbl[i]
+                if ch == '{':
+                    depth += 1
+                elif ch == '}':
+                    depth -= 1
+                elif ch == ']' and depth == 0:
+                    i += 1
+                    break
+                i += 1
+        if i < n and bbl[i] == '{':
+            j = bbl.find('}', i)
+            if j < 0:
+                return keys
+            keys.append(bbl[i + 1:j].replace('%\n', '').strip())
+            i = j
+
+
+def expected_order(resolved, sorts):
+    """the order the property demands: citation order, then one STABLE sort per SORT command the style executes, on the sort.key$
+    values (reference values: the model's) - Python's sorted() is stable and compares str by code point, as the statement says"""
+    order = list(resolved)
+    for obs in sorts:
+        keymap = {c.lower(): k for c, k in obs}
+        if any(c.lower() not in keymap or keymap[c.lower()] is None for c in order):
+            return None
+        order = sorted(order, key=lambda c: keymap[c.lower()])
+    return order
 
 
 def oracle(case, io, reply):
     fails = []
     a, f = io['aux'], io['files']
-    for name in ('aux', 'files', 'variant', 'bibtex_db'):
+    for name in ('aux', 'files', 'variant', 'bibtex_db', 'single', 'file', 'string', 'default', 'inject'):
         r = io.get(name)
         if r and 'error' in r and r['error'][0] == 'INTERNAL':
             fails.append('no_internal: %s run raised %s' % (name, r.get('detail')))
+    # the entry points named in the quantifier are the same explicit call
+    for name, what in (('file', 'format_from_file(path)'), ('string', 'format_from_string(s) on the text(s) of the file(s)'),
+                       ('default', "format_from_files without a citations argument (default ['*'])")):
+        r = io.get(name)
+        if r is not None and (r.get('error'), r.get('bbl')) != (f.get('error'), f.get('bbl')):
+            fails.append('entry_points: %s gives %r, format_from_files on the same database %r' % (
+                what, (r.get('bbl') or str(r.get('error')))[:200], (f.get('bbl') or str(f.get('error')))[:200]))
     if 'error' in a or 'error' in f:
         if a.get('error') != f.get('error'):
             fails.append('aux_equiv: make_bibliography gave %r, the explicit call %r' % (a.get('error') or 'output', f.get('error') or 'output'))
         return fails
-    if a['bbl'] != f['bbl']:
+    if a['bbl'] != f['bbl'] or a.get('hex') != f.get('hex', a.get('hex')):
         which = ' [style override]' if case.get('style_override') else (' [bib_format override]' if case.get('yaml') else '')
-        fails.append('aux_equiv%s: driving the engine through the .aux file differs from the equivalent explicit call: %r vs %r' % (
-            '/override' if which else '', a['bbl'][:200], f['bbl'][:200]))
+        fails.append('aux_equiv%s: driving the engine through the .aux file differs from the equivalent explicit call%s: %r vs %r' % (
+            '/override' if which else '', ' (bytes written with output_encoding=%s)' % case['enc'] if case.get('enc') and a['bbl'] == f['bbl'] else '',
+            a['bbl'][:200], f['bbl'][:200]))
     c = io.get('cli')
     if c is not None:
         if 'error' in c:
@@ -303,14 +607,28 @@ def oracle(case, io, reply):
         elif c['bbl'] != a['bbl']:
             fails.append('aux_equiv/cli: the command line run differs from make_bibliography: %r vs %r' % (c['bbl'][:200], a['bbl'][:200]))
     keys = bibitem_keys(f['bbl'])
-    if sorted(k.lower() for k in keys) != sorted(k.lower() for k in io['resolved']):
-        fails.append('one_item_per_citation: items %r, resolved citations %r' % (keys, io['resolved']))
-    elif case['style'] == 'unsrt' and not case.get('style_override') and [k.lower() for k in keys] != [k.lower() for k in io['resolved']]:
-        fails.append('citation_order: unsrt emitted %r, citation order is %r' % (keys, io['resolved']))
+    emits_items = eff_style(case) not in ('mini_noread', 'mini_raise', 'mini_raise_syntax')
+    if emits_items:
+        if sorted(k.lower() for k in keys) != sorted(k.lower() for k in io['resolved']):
+            fails.append('one_item_per_citation: items %r, resolved citations %r' % (keys, io['resolved']))
+        else:
+            sorts = (reply.get('spec') or {}).get('sorts')
+            if not sorts:
+                if eff_style(case) in ('unsrt', 'unsrt_mixed', 'mini_keys') and [k.lower() for k in keys] != [k.lower() for k in io['resolved']]:
+                    fails.append('citation_order: %s emitted %r, citation order is %r' % (eff_style(case), keys, io['resolved']))
+            else:
+                want = expected_order(io['resolved'], sorts)
+                if want is not None and [k.lower() for k in keys] != [k.lower() for k in want]:
+                    fails.append('sort_order: %s emitted %r; the stable sort of the resolved citations %r on sort.key$ is %r (keys %r)' % (
+                        eff_style(case), keys, io['resolved'], want, sorts[-1]))
     v = io.get('variant')
     if v is not None and v.get('bbl') != f['bbl']:
         fails.append('frame: output changed when uncited entries were added/removed or the file was reordered: %r vs %r' % (
             (v.get('bbl') or str(v.get('error')))[:200], f['bbl'][:200]))
+    sg = io.get('single')
+    if sg is not None and sg.get('bbl') != f['bbl']:
+        fails.append('frame/split: the same database given as two files differs from the one-file run: %r vs %r' % (
+            f['bbl'][:200], (sg.get('bbl') or str(sg.get('error')))[:200]))
     b = io.get('bibtex_db')
     if b is not None and 'error' not in b and bibitem_keys(b['bbl']) != keys:
         fails.append('override_format: reading the YAML copy gives items %r, the .bib file %r' % (keys, bibitem_keys(b['bbl'])))
@@ -325,6 +643,16 @@ def buckets(case, io):
         b.append('yaml')
     if case.get('variant_keys') is not None or case.get('variant_noise') is not None:
         b.append('variant')
+    if case.get('split') is not None:
+        b.append('two-files')
+    if case.get('entry'):
+        b.append('entry:' + case['entry'])
+    if case.get('view') and case['view'] != 'aux':
+        b.append('model-view:' + case['view'])
+    if case.get('enc'):
+        b.append('enc:' + case['enc'])
+    if case.get('family'):
+        b.append('family:' + case['family'])
     if 'error' in io['aux']:
         b.append('error:' + io['aux']['error'][0])
     return b
@@ -363,6 +691,13 @@ def _citation_lines(case):
     return out
 
 
+def _base(keys, cites, style, mc=2, **kw):
+    case = {'op': 'makebib', 'keys': list(keys), 'citations': list(cites), 'style': style, 'min_crossrefs': mc, 'noise': [],
+            'style_override': None, 'yaml': False}
+    case.update(kw)
+    return case
+
+
 def gen_case(rng, styles):
     n = rng.randint(2, 8)
     keys = rng.sample(ORDER, n)
@@ -398,26 +733,46 @@ def gen_case(rng, styles):
             groups.append(g)
             left -= g
     case = {'op': 'makebib', 'keys': keys, 'citations': cites, 'style': rng.choice(styles), 'min_crossrefs': rng.choice([1, 2, 2, 3]),
-            'noise': [], 'style_override': None, 'yaml': False, 'cli': rng.random() < 0.4}
+            'noise': [], 'style_override': None, 'yaml': False, 'cli': rng.random() < 0.3}
     if groups:
         case['aux_groups'] = groups
     r = rng.random()
-    if r < 0.2:
+    if r < 0.2 and len(styles) > 1:
         case['style_override'] = rng.choice([s for s in styles if s != case['style']])
     elif r < 0.35:
         case['yaml'] = True
-    if '*' not in cites and not case['yaml']:
+        case['decoy'] = rng.random() < 0.6
+    if not case['yaml']:
+        r = rng.random()
+        if r < 0.25 and len(keys) >= 2:
+            case['split'] = rng.randint(0, len(keys))       # the same database as two files (\bibdata{refs,refs2})
+        if rng.random() < 0.12 and 'uni1' in keys:
+            case['enc'] = 'latin-1'
+            case['cli'] = False
+    # further entry points / the run the model is compared with
+    r = rng.random()
+    if r < 0.2 and case.get('split') is None:
+        case['entry'] = 'file'
+    elif r < 0.45:
+        case['entry'] = 'string'
+        if rng.random() < 0.5 and not case.get('enc'):
+            case['view'] = 'string'
+    elif r < 0.55 and cites == ['*'] and case.get('split') is None:
+        case['entry'] = 'default'
+    elif r < 0.7 and not case.get('enc'):
+        case['view'] = 'files'
+    if '*' not in cites and not case['yaml'] and case.get('split') is None:
         r = rng.random()
         cited = {c.lower() for c in cites}
         needed = set(cited)
         if any(k in cited for k in ('inproc1', 'inproc2')):
             needed.add('proc')
-        if r < 0.4:
+        if r < 0.35:
             case['variant_noise'] = [[rng.randint(0, len(keys)), rng.randrange(len(NOISE))] for _ in range(rng.randint(1, 3))]
-        elif r < 0.7:
+        elif r < 0.6:
             vk = [k for k in keys if k in needed or rng.random() < 0.5]
             case['variant_keys'] = vk
-        elif r < 0.9:
+        elif r < 0.8:
             vk = list(keys)
             rng.shuffle(vk)
             if 'proc' in vk:
@@ -427,8 +782,69 @@ def gen_case(rng, styles):
     return case
 
 
+def gen_ties(rng, styles):
+    """2-4 entries identical up to the key (equal sort keys) and/or entries sharing an alpha label, cited in shuffled order"""
+    group = rng.sample(TIES, rng.randint(2, 4)) + (rng.sample(COLLIDE, rng.randint(2, 3)) if rng.random() < 0.6 else [])
+    others = rng.sample([k for k in ORDER if k not in TIES and k not in COLLIDE and k not in ('proc', 'inproc1', 'inproc2')], rng.randint(0, 2))
+    keys = group + others
+    rng.shuffle(keys)
+    cites = list(keys)
+    rng.shuffle(cites)
+    if rng.random() < 0.3:
+        cites = cites[:-1] or cites
+    if rng.random() < 0.15:
+        cites = ['*']
+    case = _base(keys, cites, rng.choice(styles), family='ties', cli=False)
+    r = rng.random()
+    if r < 0.2:
+        case['view'] = 'files'
+    elif r < 0.35:
+        case['yaml'] = True
+        case['decoy'] = rng.random() < 0.5
+    elif r < 0.5 and '*' not in cites:
+        vk = list(keys)
+        rng.shuffle(vk)
+        case['variant_keys'] = vk
+    return case
+
+
+def mini_cases(rng, n_random):
+    cases = []
+    dbs = [(['knuth84', 'art1', 'misc1'], ['misc1', 'knuth84', 'art1']), (['tieq', 'tiea', 'art2'], ['tieq', 'art2', 'tiea']),
+           (['inproc1', 'inproc2', 'proc'], ['inproc2', 'inproc1'])]
+    for st in ('mini_keys', 'mini_sorted', 'mini_revkey', 'mini_twosorts', 'mini_syntax'):
+        for keys, cites in dbs:
+            for c in (cites, list(reversed(cites)), ['*']):
+                cases.append(_base(keys, c, st, 1, family='mini', entry='string',
+                                   variant_noise=[[1, 0]] if '*' not in c and st != 'mini_syntax' else None))
+    # where and when the files are opened / the script is parsed
+    for st in ('mini_noread', 'mini_raise', 'mini_raise_syntax', 'mini_keys', 'mini_syntax'):
+        for missing in (False, True):
+            for view in ('aux', 'files'):
+                cases.append(_base(['knuth84', 'art1'], ['art1', 'knuth84'], st, family='mini', missing_bib=missing, view=view))
+    cases.append(_base(['knuth84', 'art1'], ['art1'], 'mini_noread', family='mini', split=1, missing_bib=True))
+    # an unknown command in a script handed to Interpreter.run
+    for st, n in (('mini_keys', 5), ('mini_sorted', 7), ('unsrt', 3)):
+        for pos in (0, 2, n):
+            cases.append(_base(['knuth84', 'art1'], ['art1', 'knuth84'], st, family='mini', inject=[pos, 'FROBNICATE'], view='inject'))
+    for _ in range(n_random):
+        keys = rng.sample([k for k in ORDER if k != 'proc'], rng.randint(2, 6))
+        cites = rng.sample(keys, rng.randint(1, len(keys)))
+        case = _base(keys, cites, rng.choice(['mini_sorted', 'mini_revkey', 'mini_twosorts', 'mini_keys']), rng.choice([1, 2]), family='mini')
+        if rng.random() < 0.5:
+            case['split'] = rng.randint(0, len(keys))
+        if rng.random() < 0.5:
+            case['view'] = rng.choice(['files', 'string'])
+            if case['view'] == 'string':
+                case['entry'] = 'string'
+        cases.append(case)
+    return cases
+
+
 def gen_cases(tier, rng, info):
-    styles = STYLES_QUICK if tier == 'quick' else STYLES_ALL
+    quick = tier == 'quick'
+    _root()
+    styles = STYLES_QUICK if quick else STYLES_ALL
     cases = []
     # small exhaustive part: every pair of entries x every citation list over them x style
     pairs = [('knuth84', 'art1'), ('inproc1', 'proc'), ('art2', 'tech1')]
@@ -438,28 +854,80 @@ def gen_cases(tier, rng, info):
                 for mc in (1, 2):
                     cases.append({'op': 'makebib', 'keys': [a, b], 'citations': cites, 'style': st, 'min_crossrefs': mc, 'noise': [],
                                   'style_override': None, 'yaml': False, 'variant_noise': [[0, 0], [2, 1]] if '*' not in cites else None})
+    # ties and label collisions, systematically: every order of three tied entries / of the colliding group, sorting styles
+    import itertools
+    for st in [s for s in styles if s not in ('unsrt', 'unsrt_mixed')]:
+        for group in (TIES[:3], COLLIDE):
+            for cites in itertools.permutations(group):
+                cases.append(_base(sorted(group), cites, st, family='ties'))
+        cases.append(_base(TIES[:2] + COLLIDE[:2], [COLLIDE[1], TIES[1], COLLIDE[0], TIES[0]], st, family='ties', yaml=True, decoy=True))
+        cases.append(_base(TIES[:2] + COLLIDE[:2], [COLLIDE[1], TIES[1], COLLIDE[0], TIES[0]], st, family='ties', yaml=True, decoy=False))
+    # the bib_format override beside a decoy / an absent .bib file, both styles of override together
+    for st in styles:
+        for decoy in (True, False):
+            cases.append(_base(['knuth84', 'art1', 'uni1'], ['art1', 'uni1', 'knuth84'], st, yaml=True, decoy=decoy, cli=True))
+    cases.append(_base(['knuth84', 'art1'], ['art1', 'knuth84'], 'unsrt', yaml=True, decoy=True, style_override='plain', cli=True))
+    # encodings: non-ASCII text written and read back with an 8-bit encoding
+    for st in styles:
+        cases.append(_base(['uni1', 'art1'], ['uni1', 'art1'], st, enc='latin-1'))
+    mini = mini_cases(rng, 25 if quick else 300)
+    cases += mini
     info['exhaustive'] = False
-    info['scope'] = '%d small systematic cases + seeded random databases from a pool of %d entries' % (len(cases), len(POOL))
-    for _ in range(350 if tier == 'quick' else 6000):
-        cases.append(gen_case(rng, styles))
+    rnd = []
+    for _ in range(30 if quick else 400):
+        rnd.append(gen_ties(rng, [s for s in styles if s != 'unsrt_mixed']))
+    for _ in range(230 if quick else 3200):
+        rnd.append(gen_case(rng, styles))
+    if not quick:
+        # the large styles shipped in tests/data (two or three SORTs, REVERSE passes): random databases, ties and label collisions
+        # (a run costs ten times a standard style's: spread evenly over the stream so that the worker pool stays balanced)
+        for st in STYLES_LARGE:
+            for _ in range(60):
+                c = gen_case(rng, [st])
+                c['cli'] = False
+                rnd.append(c)
+            for _ in range(15):
+                rnd.append(gen_ties(rng, [st]))
+        rng.shuffle(rnd)
+    cases += rnd
+    # the same database as two files, '*' cited: the order of the FILES is the citation order
+    for st in styles:
+        for sp in (1, 2):
+            cases.append(_base(['art1', 'knuth84', 'misc1'], ['*'], st, split=sp, entry='string', view='string' if sp == 1 else 'aux'))
+    _prefetch(cases)
+    n_sys = len(cases) - len(rnd)
+    info['scope'] = '%d systematic cases (pairs x citation lists x styles, tie / label-collision permutations, miniature styles, overrides, ' \
+                    'encodings) + seeded random databases from a pool of %d entries' % (n_sys, len(POOL))
     return cases
 
 
-LEVEL_TEXT = ('Machine-checked proofs (Lean 4) over an executable model of Engine.make_bibliography, BibTeXEngine.format_from_files and the '
-              'whole BST interpreter (every built-in, READ / ITERATE / REVERSE / SORT): (1) the .aux entry point equals the explicit call byte '
-              'for byte and explicit style / bib_format arguments override the .aux file / the default reader; (2) frame theorem, by '
-              'simultaneous induction on fuel over the six mutually recursive interpreter functions: everything after READ depends on the '
-              'database only through the view (type, own and inherited fields, crossref value) of the resolved citations, which is determined '
-              'by their crossref closure - so two runs whose READ steps resolve the same citations on databases agreeing there produce the same '
-              '.bbl, reports and printed output; inserting an uncited, unreferenced entry into a reader\'s entry list changes nothing; (3) for '
-              'the schema READ; [SORT;] ITERATE {f} exactly one item per resolved citation, in citation / reverse / stable sort.key$ order.  '
-              'Tied to the code by a byte-for-byte correspondence check of the model against the real engine on the standard styles '
-              '(unsrt, plain, alpha) through both entry points with all override combinations, plus metamorphic checks on the implementation.')
+LEVEL_TEXT = ('Machine-checked proofs (Lean 4) over an executable model of Engine.make_bibliography, BibTeXEngine.format_from_files / '
+              '_file / _string(s), the loop of Interpreter.run (style parsed lazily, data files opened by READ, unknown commands skipped) and '
+              'the whole BST interpreter (every built-in, READ / ITERATE / REVERSE / SORT): (1) the .aux entry point equals the explicit call '
+              'byte for byte, an explicit style replaces \\bibstyle, bib_format selects suffix and reader together, the entry points are one '
+              'function; (2) frame theorem, by simultaneous induction on fuel over the six mutually recursive interpreter functions: '
+              'everything after READ depends on the database only through the view (type, own and inherited fields, crossref value) of the '
+              'resolved citations, which is determined by their crossref closure - so two runs (also: two format_from_files calls) whose READ '
+              'steps resolve the same citations on databases agreeing there produce the same .bbl, reports and printed output; inserting an '
+              "uncited, unreferenced entry into a reader's entry list or exchanging two neighbours of it (parent-after-child proviso, no '*') "
+              'changes nothing; databases holding the same entry under every key in any order give the same READ result; (3) order: every '
+              'command except READ and SORT keeps the citation list; mid; ITERATE {f} emits one item per resolved citation in citation order, '
+              'SORT; mid; ITERATE {f} in stable sort.key$ order; an entry function beginning with the standard output.bibitem emits lines '
+              'starting with \\bibitem{k}.  Tied to the code by a byte-for-byte correspondence check of the model against the real engine on '
+              'the shipped styles (unsrt, plain, alpha; thorough: unsrt_mixed, IEEEtran, jurabib, apacite) and generated miniature styles '
+              'through every entry point with all override combinations, plus metamorphic checks and a sorted-order clause (reference sort '
+              'keys from the model) on the implementation.')
 LEVEL_NOTE = ('Trusted: Lean kernel; axioms propext/Classical.choice/Quot.sound only; the hand-written model corresponds to the code only as '
               'far as the differential check explores.  The step from "the two .bib files differ only in uncited, unreferenced entries or in '
-              'order" to "the READ steps resolve the same citations on agreeing databases" is proved for insertion into a bib_format '
-              'reader\'s entry list (C06_frame_uncited_alt) and reduced to explicit equalities otherwise (C06_frame_read); for .bib text it '
-              'rests on C05\'s filtered-reading theorem (with its ordering proviso: a cross-referenced parent must follow its children) and '
-              'on the correspondence check.  C06_one_item_per_citation takes "f emits exactly one item" as a hypothesis about the style '
-              '(proved for a tiny style in the non-vacuity theorem, checked on the standard styles by the harness).  Whole-run theorems are '
-              'stated for styles with a single READ (all styles in existence).')
+              'order" to "the READ steps resolve the same citations on agreeing databases" is proved for a bib_format '
+              "reader's entry list (insertion: C06_frame_uncited_alt; exchange of neighbours: C06_frame_swap_alt) and reduced to explicit "
+              "equalities otherwise (C06_frame_read, C06_frame_reordered); for .bib text it rests on C05's filtered-reading theorem (with its "
+              'ordering proviso: a cross-referenced parent must follow its children) and on the correspondence check.  '
+              'C06_one_item_per_citation / C06_order_general take "f emits exactly one item" as a hypothesis about the style; '
+              'C06_item_starts_with_bibitem discharges the \\bibitem{k} prologue for the output.bibitem skeleton of unsrt.bst / plain.bst (the '
+              'rest of an entry function is arbitrary code: only "the output grows" is proved about it; alpha.bst\'s \\bibitem[label]{k} '
+              'variant: C06_item_starts_with_bibitem_alpha).  Whole-run theorems are stated for styles with a single READ (all styles in existence).  '
+              "The sort-order oracle clause takes the sort keys from the model (the property gives no other definition of a style's keys); "
+              'REVERSE is visible to it only through generated styles whose sort keys are computed in a REVERSE pass.  Not modelled: the '
+              "in-place mutation of the caller's citation list by SORT before READ; encodings (the model maps text to text; the byte-level "
+              'comparison of the two entry points under output_encoding / bib_encoding is implementation-only).')
